@@ -80,9 +80,13 @@ def main():
                     if rc == 1 and viol:
                         # replay the replay files in fresh processes, first to last, until one reproduces
                         entry["replay_reproduced"] = False
-                        for k, (_, path) in enumerate(viol[:6]):
+                        tried = 0
+                        for k, (_, path) in enumerate(viol):
                             if not os.path.exists(path):
-                                continue
+                                continue  # beyond the cap on minimised reports: no replay was written for this one
+                            tried += 1
+                            if tried > 6:
+                                break
                             rrc, rout = sh([f"{tmp}/target/checked/sim", "replay", path])
                             if "REPLAY-REPRODUCED" in rout:
                                 entry["replay_reproduced"] = True
